@@ -36,6 +36,7 @@ Record nst := {
 Section Nest.
   Variable selective : bool.
   Variable kind : nkind.
+  Variable tuples : bool.      (* both levels are the crate's tuple impls: for join that is a different algorithm (the other combinators have one) *)
   Variable lscripts : list (list step).
 
   Definition half : nat := length lscripts / 2.
@@ -50,14 +51,14 @@ Section Nest.
   Definition run_level (scs: list (list step)) (hist: list op) : list ev :=
     match kind with
     | NJR => tr _ (race_world scs hist)
-    | _ => if nstreams kind then tr _ (merge_world selective scs hist) else tr _ (join_world selective false false scs hist)
+    | _ => if nstreams kind then tr _ (merge_world selective scs hist) else tr _ (join_world selective false tuples scs hist)
     end.
   (* does the outer level hand its caller's waker straight to the inner combinators?  (always in the non-selective build; race and chain in every build) *)
   Definition outer_passes : bool := negb selective || match kind with NRJ | NCM => true | _ => false end.
   Definition run_outer (scs: list (list step)) (hist: list op) : list ev :=
     match kind with
     | NJT => tr _ (join_world selective false true scs hist)
-    | NJR => tr _ (join_world selective false false scs hist)
+    | NJR => tr _ (join_world selective false tuples scs hist)
     | NRJ => tr _ (race_world scs hist)
     | NCM => tr _ (chain_world scs hist)
     | NZM => tr _ (zip_world selective scs hist)
